@@ -971,6 +971,18 @@ def c18(ctx, tr):
     res['probes']['bf' if bf else 'lp'] = 1
     if tr.intruders:
         res['probes']['second-solver-object-in-between'] = 1
+    # solves in which the back end was made to die: the caller got PuLP's
+    # exception; what the getters do until the next solve is not judged
+    crashed = set(c['solve_index'] for c in tr.calls
+                  if c['op'] == 'solve' and not c['ok'] and
+                  'mpsim-injected-crash' in (c['exc']['msg'] or ''))
+    exc = None
+    for c in tr.calls:
+        if not c['ok'] and c.get('solve_index') not in crashed:
+            exc = c
+            break
+    if crashed:
+        res['probes']['solve-crashed-inside-history'] = 1
     if exc is not None:
         e = exc['exc']
         if e['type'] == 'RunTimeout':
@@ -979,12 +991,16 @@ def c18(ctx, tr):
         res['violations'].append(
             ('exception:' + e['type'], e['site'] or exc['op'],
              {'msg': e['msg'], 'op': exc['op'],
+              'after_crashed_solve': bool(
+                  crashed and min(crashed) < (exc.get('solve_index') or 0)),
               'history': [c['op'] for c in tr.calls], 'tb': e['tb']}))
         return res
     # getters idempotent inside an epoch
     first = {}
     repeated = 0
     for c in tr.calls:
+        if not c['ok'] or c.get('solve_index') in crashed:
+            continue
         if c['op'] in ('get_results', 'get_results_short', 'get_results_long',
                        'get_debug'):
             k = (c['solve_index'], c['op'])
@@ -1016,8 +1032,11 @@ def c18(ctx, tr):
                      for e2, tl in limit_of.items())
     cut_epochs = set(r_['solve_index'] for r_ in tr.rounds
                      if r_.get('coherent_tl'))
+    epochs = [ep for ep in epochs if ep not in crashed]
     for ep in epochs:
         cut_before = any(e2 < ep for e2 in cut_epochs)
+        if any(e2 < ep for e2 in crashed):
+            res['probes']['full-solve-after-crashed-solve'] = 1
         texts = [(op, t) for (e2, op), t in first.items()
                  if e2 == ep and op != 'get_debug']
         for op, text in texts:
